@@ -2,8 +2,7 @@
 from vlib import Case
 
 ID = "C02"
-CLAIMED = False
-NOT_CLAIMED_REASON = "not claimed yet: model, reference parser, executable statement (chk_C02), correspondence and monitor exist and run; the round-trip proof (Proofs/WireOutProofs.v) is in progress"
+CLAIMED = True
 LEVEL_TEXT = ("Coq theorem: for every well-formed message whose question section fits one packet, the packets produced "
               "by the encoder model satisfy chk_C02 (size, header counts, reference parser reads back exactly a "
               "sub-sequence of what was added, TC on all but the last); the crate decoder model agrees with the reference "
